@@ -3,7 +3,7 @@
     SimpleBitPack / BitPack / SimpleBitUnpack / BitUnpack are FIPS 204 Alg. 16-19 defined on bit lists
     (IntegerToBits, BitsToBytes, BytesToBits, BitsToInteger) in PPack.v. Ranges: t1 in [0,2^10), t0 in (-2^12,2^12],
     eta in [-eta,eta], z in (-gamma1,gamma1], w1 in [0,64) resp. [0,16). *)
-From DV Require Import Base MReduce MParams MPoly PPack PPack2.
+From DV Require Import Base MReduce MParams MPoly MPolyvec MPacking MSign PPack PPack2 PHint PKeyCodec.
 
 Theorem C16_encoders_are_fips204 : forall a : list Z, length a = 256%nat ->
   (Forall t1_rng a -> t1_pack_bytes a = Ok (SimpleBitPack a (2 ^ 10 - 1))) /\
@@ -96,6 +96,84 @@ Theorem C16_pack_touches_only_its_bytes : forall r a : list Z,
              (forall i : nat, (320 <= i)%nat -> nth_error r' i = nth_error r i).
 Proof. exact t1_pack_splice. Qed.
 Print Assumptions C16_pack_touches_only_its_bytes.
+
+(** signature container, hint part: HintBitPack / HintBitUnpack of FIPS 204 (S_hint_pack / S_hint_unpack in PHint.v) *)
+Theorem C16_hint_section_is_HintBitPack :
+  forall (P : params) (sig : list Z) (c : option (list Z)) (z h : list (list Z)) (sig0 sig1 : list Z),
+  match c with Some ch => do cc <- slice_to ch (pCT P); splice sig 0 cc | None => Ok sig end = Ok sig0 ->
+  foldM (fun sig2 i => do a <- get z i; do b <- z_pack_bytes (pGAMMA1 P) a; splice sig2 (pCT P + i * pPOLYZ P) b)
+        (zrange 0 (pL P)) sig0 = Ok sig1 ->
+  0 <= pOMEGA P <= 255 -> 0 <= hint_off P -> zlen h = pK P -> Forall (fun r => length r = 256%nat) h ->
+  hweight h <= pOMEGA P -> hint_off P + pOMEGA P + pK P <= zlen sig1 ->
+  pack_sig P sig c z h =
+  Ok (firstn (Z.to_nat (hint_off P)) sig1 ++ S_hint_pack (pOMEGA P) h ++
+      skipn (Z.to_nat (hint_off P + pOMEGA P + pK P)) sig1).
+Proof. exact pack_sig_hint_spec_full. Qed.
+Print Assumptions C16_hint_section_is_HintBitPack.
+
+(** the decoder accepts exactly the canonical encodings and returns the encoded hint vector *)
+Theorem C16_hint_decoder_strict : forall P : params, 0 <= pOMEGA P <= 255 -> 0 <= pK P ->
+  forall (hs : list Z) (h' : list (list Z)), pOMEGA P + pK P <= zlen hs -> bytes hs ->
+  (hint_decode P hs (zero_h (pK P)) = Ok (h', true) <-> S_hint_unpack (pOMEGA P) (pK P) hs = Some h').
+Proof. exact unpack_hint_strict. Qed.
+Print Assumptions C16_hint_decoder_strict.
+
+Theorem C16_hint_roundtrip : forall (P : params) (h : list (list Z)), 0 <= pOMEGA P <= 255 ->
+  hint_wf (pK P) h -> hweight h <= pOMEGA P ->
+  hint_decode P (S_hint_pack (pOMEGA P) h) (zero_h (pK P)) = Ok (h, true).
+Proof. exact hint_decode_pack. Qed.
+Print Assumptions C16_hint_roundtrip.
+
+Theorem C16_accepted_signature_hints_are_canonical :
+  forall (P : params) (c : list Z) (z : list (list Z)) (sig c' : list Z) (z' h' : list (list Z)),
+  0 <= pOMEGA P <= 255 -> 0 <= pK P -> 0 <= hint_off P -> zlen sig = hint_off P + pOMEGA P + pK P -> bytes sig ->
+  unpack_sig P c z (zvec (pK P)) sig = Ok (c', z', h', true) ->
+  let hs := skipn (Z.to_nat (hint_off P)) sig in
+  S_hint_unpack (pOMEGA P) (pK P) hs = Some h' /\ S_hint_pack (pOMEGA P) h' = hs /\ hweight h' <= pOMEGA P /\ hint_wf (pK P) h'.
+Proof. exact unpack_sig_hint_canonical. Qed.
+Print Assumptions C16_accepted_signature_hints_are_canonical.
+
+(** key containers: pkEncode / skEncode of FIPS 204 (S_pkEncode / S_skEncode in PKeyCodec.v), and their decoders *)
+Theorem C16_public_key_container : forall (P : params) (pk rho : list Z) (t1 : list (list Z)),
+  0 <= pK P -> pPK P <= zlen pk -> 32 <= zlen rho -> zlen t1 = pK P -> Forall (polyOK t1_rng) t1 ->
+  pack_pk P pk rho t1 = Ok (S_pkEncode (firstn 32 rho) t1 ++ skipn (Z.to_nat (pPK P)) pk) /\
+  zlen (S_pkEncode (firstn 32 rho) t1) = pPK P.
+Proof. exact pack_pk_spec. Qed.
+Print Assumptions C16_public_key_container.
+
+Theorem C16_public_key_roundtrips :
+  (forall (P : params) (pk rho : list Z) (t1 : list (list Z)) (pk' rho0 : list Z) (t1_0 : list (list Z)),
+     0 <= pK P -> pPK P <= zlen pk -> Forall is_byte pk -> zlen rho = 32 -> Forall is_byte rho -> zlen t1 = pK P ->
+     Forall (polyOK t1_rng) t1 -> zlen rho0 = 32 -> zlen t1_0 = pK P ->
+     pack_pk P pk rho t1 = Ok pk' -> unpack_pk P rho0 t1_0 pk' = Ok (rho, t1)) /\
+  (forall (P : params) (pk rho : list Z) (t1 : list (list Z)) (rho0 : list Z) (t1_0 : list (list Z)) (buf : list Z),
+     0 <= pK P -> zlen pk = pPK P -> Forall is_byte pk -> zlen rho0 = 32 -> zlen t1_0 = pK P -> zlen buf = pPK P ->
+     unpack_pk P rho0 t1_0 pk = Ok (rho, t1) -> pack_pk P buf rho t1 = Ok pk).
+Proof. split; [exact unpack_pk_pack_pk | exact pack_pk_unpack_pk]. Qed.
+Print Assumptions C16_public_key_roundtrips.
+
+Theorem C16_secret_key_container :
+  forall (P : params) (sk rho tr key : list Z) (t0 s1 s2 : list (list Z)),
+  0 <= pK P -> 0 <= pL P -> eta_okP P -> 0 <= pTR P -> pSK P <= zlen sk -> 32 <= zlen rho -> 32 <= zlen key ->
+  pTR P <= zlen tr -> zlen s1 = pL P -> zlen s2 = pK P -> zlen t0 = pK P ->
+  Forall (polyOK (eta_rng (pETA P))) s1 -> Forall (polyOK (eta_rng (pETA P))) s2 -> Forall (polyOK t0_rng) t0 ->
+  pack_sk P sk rho tr key t0 s1 s2 =
+  Ok (S_skEncode (pETA P) (firstn 32 rho) (firstn 32 key) (firstn (Z.to_nat (pTR P)) tr) s1 s2 t0 ++ skipn (Z.to_nat (pSK P)) sk) /\
+  zlen (S_skEncode (pETA P) (firstn 32 rho) (firstn 32 key) (firstn (Z.to_nat (pTR P)) tr) s1 s2 t0) = pSK P.
+Proof. exact pack_sk_spec. Qed.
+Print Assumptions C16_secret_key_container.
+
+Theorem C16_secret_key_roundtrip :
+  forall (P : params) (sk rho tr key : list Z) (t0 s1 s2 : list (list Z)) (sk' rho0 tr0 key0 : list Z) (t0_0 s1_0 s2_0 : list (list Z)),
+  0 <= pK P -> 0 <= pL P -> eta_okP P -> 0 <= pTR P -> pSK P <= zlen sk -> Forall is_byte sk ->
+  zlen rho = 32 -> zlen key = 32 -> zlen tr = pTR P -> Forall is_byte rho -> Forall is_byte key -> Forall is_byte tr ->
+  zlen s1 = pL P -> zlen s2 = pK P -> zlen t0 = pK P ->
+  Forall (polyOK (eta_rng (pETA P))) s1 -> Forall (polyOK (eta_rng (pETA P))) s2 -> Forall (polyOK t0_rng) t0 ->
+  zlen rho0 = 32 -> zlen key0 = 32 -> zlen tr0 = pTR P -> zlen t0_0 = pK P -> zlen s1_0 = pL P -> zlen s2_0 = pK P ->
+  pack_sk P sk rho tr key t0 s1 s2 = Ok sk' ->
+  unpack_sk P rho0 tr0 key0 t0_0 s1_0 s2_0 sk' = Ok (rho, tr, key, t0, s1, s2).
+Proof. exact unpack_sk_pack_sk_fips_range. Qed.
+Print Assumptions C16_secret_key_roundtrip.
 
 Example C16_nonvacuous :
   t1_pack_bytes [1023; 0; 1; 512] = Ok [255; 3; 16; 0; 128] /\
